@@ -208,6 +208,7 @@ class Ref:
         self.reads = set()
         self.read_log = []  # ordered (key, present)
         self.abandoned_reads = set()  # reads made inside coalesce members / dispatches that then failed
+        self.optional_absent = set()
         self._trial = 0
         self._trial_marks = []
         self._defs = {}
@@ -218,6 +219,7 @@ class Ref:
         self.reads = set()
         self.read_log = []
         self.abandoned_reads = set()
+        self.optional_absent = set()
         self.body_events = []
         self.effect_events = []
         self._trial = 0
@@ -339,6 +341,7 @@ class Ref:
         except Absent:
             if default is None:
                 raise RefFail("missing", key)
+            self.optional_absent.add(key)  # absent but defaulted: optional, not "still to be supplied"
             value = default()
         else:
             value = self.resolve(raw, o)
